@@ -26,7 +26,7 @@ StepRec ==
     LET who == pos[2]
         nm == StageName
     IN IF IsAdvStage(pos[1])
-       THEN [a |-> nm, m |-> who, dead |-> Dead(who), msgs |-> [i \in DOMAIN out'[who] |-> MsgJ(out'[who][i])]]
+       THEN [a |-> nm, m |-> who, dead |-> Dead(who), base |-> (IF nm = "A10" THEN RevBase ELSE {}), msgs |-> [i \in DOMAIN out'[who] |-> MsgJ(out'[who][i])]]
        ELSE [a |-> nm, m |-> who, view |-> View(mem'[who]), ord |-> dord',
              msgs |-> [i \in DOMAIN out'[who] |-> MsgJ(out'[who][i])]]
 
